@@ -115,6 +115,10 @@ def t_inv(k, style=0):
         return ("forall (g1 : int[0,1]) forall (qj : int[0,1]) gys[g1] <= %d + qj" % k,
                 "(AND (CONSTANT:INT 1) (FORALL (IDENTIFIER g1) (FORALL (IDENTIFIER qj) (LE (ARRAY (IDENTIFIER gys) (IDENTIFIER g1)) "
                 "(PLUS (CONSTANT:INT %d) (IDENTIFIER qj))))))" % k)
+    if style == 6:    # a quantifier over rates nested in another one
+        return ("gx <= %d && forall (qi : int[0,1]) forall (qj : int[0,1]) (gxs[qi]' == 0 && gys[qj] <= 5)" % k,
+                "(AND (AND (CONSTANT:INT 1) %s) (FORALL (IDENTIFIER qi) (FORALL (IDENTIFIER qj) (AND %s (LE (ARRAY (IDENTIFIER gys) (IDENTIFIER qj)) (CONSTANT:INT 5))))))"
+                % (le("gx", k), rate0))
     if style == 2:
         return ("g1 <= 1 && gx <= 11 && g2 <= %d" % k,
                 "(AND (CONSTANT:INT 1) (AND (AND %s %s) %s))" % (le("g1", 1), le("gx", 11), le("g2", k)))
@@ -545,7 +549,7 @@ def build(choose, common=False, bp_base=True):
                 kind = (["", "U", "C"] if li != 2 else ["C", "", "U"])[choose(3, "%s.L%d.kind" % (t.name, li))]
                 l.inv, l.rate, l.kind = inv, rate, kind
                 if inv is not None:
-                    l.invstyle = choose(6, "%s.L%d.invstyle" % (t.name, li))
+                    l.invstyle = choose(7, "%s.L%d.invstyle" % (t.name, li))
                 if inv is not None and rate is not None:
                     l.rate_first = bool(choose(2, "%s.L%d.ratefirst" % (t.name, li)))
                 # (urgent and committed locations may carry an invariant and a rate like any other location)
